@@ -2,6 +2,7 @@ package sim
 
 import (
 	"context"
+	"errors"
 	"fmt"
 	"reflect"
 	"runtime/debug"
@@ -223,11 +224,24 @@ func (s *Sim) startRPC(rs *rpcState) {
 		base = metadata.NewOutgoingContext(base, rs.outMD)
 	}
 	rs.baseCtx = base
-	if r.DeadlineN > 0 {
+	switch {
+	case r.Cause:
+		// the caller says why: net/http and others then report context.Cause
+		// instead of the plain context error
+		if r.DeadlineN > 0 {
+			rs.deadline = time.Now().Add(time.Duration(r.DeadlineN))
+			var c0 context.CancelFunc
+			base, c0 = context.WithDeadlineCause(base, rs.deadline, errors.New("the caller's budget for this call ran out"))
+			_ = c0 // released through the child below
+			s.addInstant(rs.deadline)
+		}
+		ctx, cc := context.WithCancelCause(base)
+		rs.ctx, rs.cancel = ctx, func() { cc(errors.New("the caller lost interest")) }
+	case r.DeadlineN > 0:
 		rs.deadline = time.Now().Add(time.Duration(r.DeadlineN))
 		rs.ctx, rs.cancel = context.WithDeadline(base, rs.deadline)
 		s.addInstant(rs.deadline)
-	} else {
+	default:
 		rs.ctx, rs.cancel = context.WithCancel(base)
 	}
 	rs.started = true
@@ -328,7 +342,19 @@ func (s *Sim) clientMain(rs *rpcState, g int, ops []Op) {
 				ev.GotMsg = proto.Clone(asGen(resp))
 				ev.Got = digestAny(resp)
 				ev.obj = resp
+				s.mu.Lock()
 				rs.recvObjs = append(rs.recvObjs, resp)
+				var src any
+				if len(rs.hSentObjs) > 0 {
+					src = rs.hSentObjs[0]
+				}
+				s.mu.Unlock()
+				if r.Transport == TInproc && src != nil {
+					// the object the handler returned (and may keep, e.g. in a cache)
+					if why := sharesMemory(src, resp); why != "" {
+						ev.Note = "ALIAS:" + why
+					}
+				}
 			}
 			if mismatch {
 				ev.Flags = map[string]string{"mismatch": "1"}
@@ -369,12 +395,41 @@ func (s *Sim) clientMain(rs *rpcState, g int, ops []Op) {
 	for _, op := range ops {
 		simrt.Yield(name + ":" + op.K)
 		s.clientOp(rs, g, st, op)
+		if rs.stubFailed {
+			// generated code returns (nil, err): the caller has no stream to
+			// use, and (like any careful caller) releases its context
+			s.endCtx(rs, "end")
+			rs.cancel()
+			break
+		}
 	}
 	s.clientRecheck(rs, g)
 	if g == 0 && rs.outMD != nil {
 		s.instant(r.ID, 'c', g, "outmd-at-end", func(e *Event) { e.MD = mdCopy(rs.outMD) })
 	}
 	s.clientExit(rs)
+}
+
+// stubPhase: a server-stream call made through generated code consists of
+// NewStream, SendMsg(request), CloseSend; an error from either of the latter
+// is what the stub returns to the caller, who never gets a stream to receive
+// from.
+func (s *Sim) stubPhase(rs *rpcState, ev *Event, err error) {
+	if !rs.r.Stub || rs.r.Kind != KServerStream || rs.stubDone || len(rs.r.Client2) > 0 {
+		return
+	}
+	if ev.Op == "closesend" {
+		rs.stubDone = true
+	}
+	if ev.Flags == nil {
+		ev.Flags = map[string]string{}
+	}
+	ev.Flags["stub"] = "1"
+	if err != nil {
+		rs.stubFailed = true
+		rs.stubDone = true
+		s.probe("stub-call-failed")
+	}
 }
 
 func afterInvoke(ops []Op) []Op {
@@ -426,6 +481,7 @@ func (s *Sim) clientOp(rs *rpcState, g int, st grpc.ClientStream, op Op) {
 		ev.Msg = op.Msg
 		ev.sobj = obj
 		err := guard(ev, func() error { return st.SendMsg(obj) })
+		s.stubPhase(rs, ev, err)
 		s.end(ev, err)
 	case "recv":
 		if st == nil {
@@ -458,6 +514,7 @@ func (s *Sim) clientOp(rs *rpcState, g int, st grpc.ClientStream, op Op) {
 		}
 		ev := s.begin(r.ID, 'c', g, "closesend")
 		err := guard(ev, func() error { return st.CloseSend() })
+		s.stubPhase(rs, ev, err)
 		s.end(ev, err)
 	case "header":
 		if st == nil {
